@@ -145,7 +145,7 @@ def unsat(cons, limit=4000):
 
 # -- abstract state ----------------------------------------------------------
 class State:
-    __slots__ = ("cells", "cons", "ptr", "vals", "ver", "alias", "ne")
+    __slots__ = ("cells", "cons", "ptr", "vals", "ver", "alias", "ne", "objptr", "tags")
 
     def __init__(self):
         self.cells = {}
@@ -155,6 +155,8 @@ class State:
         self.ver = {}     # base name -> number of symbols created for it (deterministic names)
         self.alias = {}   # "*p" cell key -> array prefix it aliases
         self.ne = []      # disequalities  lin != 0  (used only to prune, never split on)
+        self.objptr = set()  # (func, var id) of pointers bound to an object's cell key (&obj): p->f is obj.f
+        self.tags = {}    # ghost facts kept by rule-specific models (copied shallowly per key)
 
     def copy(self):
         s = State()
@@ -165,6 +167,8 @@ class State:
         s.ver = dict(self.ver)
         s.alias = dict(self.alias)
         s.ne = list(self.ne)
+        s.objptr = set(self.objptr)
+        s.tags = {k: (dict(v) if isinstance(v, dict) else v) for k, v in self.tags.items()}
         return s
 
     def key(self):
@@ -215,6 +219,8 @@ class Analysis:
 
     def __init__(self, prog, invariant=None, on_store=None, on_sub=None, max_states=4000,
                  on_loop_pre=None, on_loop_entry=None, on_backedge=None):
+        self.models = {}   # external function name -> model(an, f, call, state) -> [(value, state)]
+        self.inline = True  # analyse same-file loop-free callees in the caller's state
         self.on_loop_pre = on_loop_pre
         self.on_loop_entry = on_loop_entry
         self.on_backedge = on_backedge
@@ -271,6 +277,8 @@ class Analysis:
                 base = ir.strip(e["b"])
                 if isinstance(base, dict) and base.get("k") == "var":
                     p = st.ptr.get((f.name, base["id"]), base["n"])
+                    if (f.name, base["id"]) in st.objptr:
+                        return "%s.%s" % (p, e["f"])
                     return "%s->%s" % (p, e["f"])
                 bk = self.cellkey(f, base, st)
                 return None if bk is None else "(%s)->%s" % (bk, e["f"])
@@ -326,6 +334,10 @@ class Analysis:
         k = e.get("k")
         if k == "int":
             return [(lconst(e.get("v", 0)), st)]
+        if k == "str":
+            v = self.fresh(st, "strlit", False)   # the address of a string literal: some non-null pointer
+            st.ne.append(v)
+            return [(v, st)]
         if k == "paren":
             return self.eval(f, e["e"], st)
         if k in ("var", "mem", "deref", "idx"):
@@ -430,8 +442,10 @@ class Analysis:
                     tgt = self.ptr_target(f, e["r"], s)
                     if tgt is not None:
                         s.ptr[(f.name, lvs["id"])] = tgt
+                        s.objptr.add((f.name, lvs["id"]))
                     else:
                         s.ptr.pop((f.name, lvs["id"]), None)
+                        s.objptr.discard((f.name, lvs["id"]))
                     s.cells["%s:%s" % (f.name, lvs["n"])] = val
                 elif op in ("+=", "-=", "++", "--"):
                     curv = self.eval(f, lvs, s)[0][0]
@@ -470,7 +484,7 @@ class Analysis:
     def call(self, f, e, st):
         fn = e.get("fn") or ""
         g = self.prog.resolve(fn, f) if fn else None
-        if g is not None and g is not f and g.blocks and g.file == f.file and not paths.natural_loops(g) and len(g.blocks) <= 40:
+        if self.inline and g is not None and g is not f and g.blocks and g.file == f.file and not paths.natural_loops(g) and len(g.blocks) <= 40:
             # evaluate arguments left to right, then run the callee here
             states = [([], st)]
             for a in e.get("args", []):
@@ -493,11 +507,15 @@ class Analysis:
                     kind, v = vals[k_]
                     if kind in ("addr", "ptr") and v is not None:
                         s.ptr[(g.name, p["id"])] = v
+                        if kind == "addr":
+                            s.objptr.add((g.name, p["id"]))
                     elif kind == "val":
                         s.cells["%s:%s" % (g.name, p["n"])] = v
                 for rv, s2 in self.run(g, s):
                     out.append((rv if rv is not None else lconst(0), s2))
             return out
+        if fn in self.models:
+            return self.models[fn](self, f, e, st)
         if "wait" in fn:
             for k in list(st.cells):
                 if "->" in k or k.startswith("*"):
@@ -715,3 +733,52 @@ class Analysis:
             if (everything and ("->" in k or k.startswith("*"))) or k in keys or any(k.startswith(p) for p in keys if p.endswith("[")):
                 del st.cells[k]
         st.vals = {kk: v for kk, v in st.vals.items() if not (kk[0] == f.name and kk[1] in body)}
+
+
+def counted_loop_problems(prog, f, head, body, bound_of, start=0, model=None):
+    """Is the natural loop (head, body) of f the canonical  for (i = start; i <
+    N; ++i)?  Decided on abstract states: before the loop i == start; at every
+    back edge i advanced by one from a value below N; N = bound_of(analysis,
+    state).  Returns a list of problems (empty = canonical)."""
+    rec = {"pre": [], "back": []}
+    an = Analysis(prog)
+    an.inline = False
+    if model:
+        an.models.update(model)
+    ivs = {an.cellkey(f, lv, State()) for b in body for s in f.blocks[b].stmts for lv, op, rhs, w in ir.writes_of(s)
+           if ir.strip(lv).get("k") == "var" and not ir.strip(lv).get("pd")}
+    # the index: the variable the loop condition reads
+    c = f.blocks[head].cond_node()
+    cvars = {an.cellkey(f, y, State()) for y in ir.walk(c) if isinstance(y, dict) and y.get("k") == "var"} if c is not None else set()
+    ivs = [k for k in ivs if k in cvars] or list(ivs)
+    if len(ivs) != 1:
+        return ["no single index variable"]
+    iv = ivs[0]
+
+    def entry(f_, h, s):
+        if f_ is f and h == head:
+            node = [y for b in body for st_ in f.blocks[b].stmts for y in ir.walk(st_)
+                    if isinstance(y, dict) and y.get("k") == "var" and an.cellkey(f, y, s) == iv]
+            if node:
+                s.cells["__i0__"] = an.eval(f, node[0], s)[0][0]
+    an.on_loop_pre = lambda f_, h, s: rec["pre"].append(s.copy()) if (f_ is f and h == head) else None
+    an.on_loop_entry = entry
+    an.on_backedge = lambda f_, h, s: rec["back"].append(s.copy()) if (f_ is f and h == head) else None
+    an.run(f, State())
+    out = []
+    if not rec["pre"] or not rec["back"]:
+        return ["the loop body is never executed by the analysis"]
+    for s in rec["pre"]:
+        if iv not in s.cells or not s.entails_eq(lsub(s.cells[iv], lconst(start))):
+            out.append("the index does not start at %d" % start)
+    for s in rec["back"]:
+        i0 = s.cells.get("__i0__")
+        n = bound_of(an, s)
+        if i0 is None or n is None:
+            out.append("index / bound not found")
+            continue
+        if not s.entails_eq(lsub(s.cells.get(iv, {}), ladd(i0, lconst(1)))):
+            out.append("the index does not advance by one")
+        if not s.entails_le(ladd(lsub(i0, n), lconst(1))):
+            out.append("the body runs for an index that is not below the element count")
+    return sorted(set(out))
